@@ -100,7 +100,11 @@ type robs struct {
 	Pos     int
 }
 
-func runRead(text []byte, k int, kind string, chunk int, together bool) (o robs) {
+// permissive: the caller allows files without header / control records
+// (Reader.SetValidation), so that even an empty or cut input can parse without error.
+var permissiveOpts = ach.ValidateOpts{AllowMissingFileHeader: true, AllowMissingFileControl: true}
+
+func runRead(text []byte, k int, kind string, chunk int, together, perm bool) (o robs) {
 	src := &faultSrc{data: text, k: k, kind: kind, chunk: chunk, together: together}
 	func() {
 		defer func() {
@@ -108,7 +112,12 @@ func runRead(text []byte, k int, kind string, chunk int, together bool) (o robs)
 				o.Class = "panic"
 			}
 		}()
-		_, err := ach.NewReader(src).Read()
+		rd := ach.NewReader(src)
+		if perm {
+			opts := permissiveOpts
+			rd.SetValidation(&opts)
+		}
+		_, err := rd.Read()
 		o.Class = class(err)
 	}()
 	o.Tripped, o.Pos = src.tripped, src.pos
@@ -116,8 +125,8 @@ func runRead(text []byte, k int, kind string, chunk int, together bool) (o robs)
 }
 
 // healthyClass: what reading exactly text[:k] from a healthy source reports.
-func healthyClass(text []byte, k int) string {
-	return runRead(text[:k], -1, "", 0, false).Class
+func healthyClass(text []byte, k int, perm bool) string {
+	return runRead(text[:k], -1, "", 0, false, perm).Class
 }
 
 // parallel runs fn(i) for i in [0,n) on all CPUs; results must be written to slot i.
@@ -233,6 +242,7 @@ type rfault struct {
 	K        int
 	Chunk    int
 	Together bool
+	Perm     bool
 }
 
 // reader faults: every offset 0..len for both kinds with whole-buffer reads, plus
@@ -240,8 +250,10 @@ type rfault struct {
 func readFaults(n int, r *rng.R) []rfault {
 	var out []rfault
 	for _, kind := range srcKinds {
-		for k := 0; k <= n; k++ {
-			out = append(out, rfault{kind, k, 0, false})
+		for _, perm := range []bool{false, true} {
+			for k := 0; k <= n; k++ {
+				out = append(out, rfault{kind, k, 0, false, perm})
+			}
 		}
 	}
 	pts := map[int]bool{0: true, 1: true, n - 1: true, n: true}
@@ -263,9 +275,9 @@ func readFaults(n int, r *rng.R) []rfault {
 	for _, kind := range srcKinds {
 		for _, k := range ks {
 			for _, c := range []int{1, 7, 512} {
-				out = append(out, rfault{kind, k, c, false}, rfault{kind, k, c, true})
+				out = append(out, rfault{kind, k, c, false, c == 7}, rfault{kind, k, c, true, c == 1})
 			}
-			out = append(out, rfault{kind, k, 0, true})
+			out = append(out, rfault{kind, k, 0, true, false})
 		}
 	}
 	return out
@@ -286,6 +298,7 @@ type caseW struct {
 	// read side
 	Chunk    int    `json:"chunk,omitempty"`
 	Together bool   `json:"together,omitempty"`
+	Perm     bool   `json:"permissive,omitempty"`
 	Path     string `json:"path,omitempty"`
 }
 
@@ -432,7 +445,7 @@ func readSweep(name string, text []byte, r *rng.R, sum *summary, emit func(failu
 	fls := readFaults(len(text), r)
 	obs := make([]robs, len(fls))
 	parallel(len(fls), func() func(int) {
-		return func(i int) { obs[i] = runRead(text, fls[i].K, fls[i].Kind, fls[i].Chunk, fls[i].Together) }
+		return func(i int) { obs[i] = runRead(text, fls[i].K, fls[i].Kind, fls[i].Chunk, fls[i].Together, fls[i].Perm) }
 	})
 	for i, fl := range fls {
 		sum.Evaluations++
@@ -441,7 +454,7 @@ func readSweep(name string, text []byte, r *rng.R, sum *summary, emit func(failu
 			sum.Distinct++
 		}
 		mk := func(withText bool) caseW {
-			c := caseW{Side: "read", File: name, Kind: fl.Kind, K: fl.K, Len: len(text), Chunk: fl.Chunk, Together: fl.Together}
+			c := caseW{Side: "read", File: name, Kind: fl.Kind, K: fl.K, Len: len(text), Chunk: fl.Chunk, Together: fl.Together, Perm: fl.Perm}
 			if withText {
 				c.TextHex = hx.Enc(string(text))
 			}
@@ -535,8 +548,8 @@ func replayCase(c caseW) []failure {
 		if text == nil {
 			return nil
 		}
-		fl := rfault{c.Kind, c.K, c.Chunk, c.Together}
-		o := runRead(text, c.K, c.Kind, c.Chunk, c.Together)
+		fl := rfault{c.Kind, c.K, c.Chunk, c.Together, c.Perm}
+		o := runRead(text, c.K, c.Kind, c.Chunk, c.Together, c.Perm)
 		if key, what := judgeRead(fl, o); key != "" {
 			out = append(out, failure{"fail", key, what, c, o})
 		}
@@ -660,13 +673,13 @@ func corr(args []string) {
 			hc := make([]string, len(rfl))
 			parallel(len(rfl), func() func(int) {
 				return func(i int) {
-					ro[i] = runRead(text, rfl[i].K, rfl[i].Kind, rfl[i].Chunk, rfl[i].Together)
-					hc[i] = healthyClass(text, rfl[i].K)
+					ro[i] = runRead(text, rfl[i].K, rfl[i].Kind, rfl[i].Chunk, rfl[i].Together, rfl[i].Perm)
+					hc[i] = healthyClass(text, rfl[i].K, rfl[i].Perm)
 				}
 			})
 			for i, fl := range rfl {
-				// R <kind> <k> <chunk> <healthy class of the k-byte prefix>
-				entries = append(entries, corrEntry{tctx, fmt.Sprintf("R %s %d %d %s", fl.Kind, fl.K, fl.Chunk, hc[i]), ro[i].Class})
+				// R <kind> <k> <chunk> <healthy class of the k-byte prefix> <healthy class of the empty input>
+				entries = append(entries, corrEntry{tctx, fmt.Sprintf("R %s %d %d %s %s", fl.Kind, fl.K, fl.Chunk, hc[i], healthyClass(text, 0, fl.Perm)), ro[i].Class})
 			}
 		}
 	}
